@@ -64,6 +64,15 @@ func vC06RunTree(n *vC05Node) (obs vSx, fl *vC06Fail) {
 	if a.Size() != len(rb) {
 		return obs, &vC06Fail{"spec-to-lib", key, fmt.Sprintf("Size() = %d after decoding a %d-byte reference encoding", a.Size(), len(rb))}
 	}
+	// the same reference encoding decoded into a receiver of that type which already holds a value
+	if d := vC05DirtyReceiver(n.kind); d != nil {
+		if err := d.UnmarshalBinary(rb); err != nil {
+			return obs, &vC06Fail{"spec-to-lib-receiver", key, fmt.Sprintf("a receiver already holding a value rejects (%v) the reference encoding %s", err, vC05Hex(rb))}
+		}
+		if got := vC05Dump(d); !vC05Equal(got, n, false) || d.Size() != len(rb) {
+			return obs, &vC06Fail{"spec-to-lib-receiver", key, fmt.Sprintf("a receiver already holding a value reads the reference encoding %s as %s with Size() %d, value was %s (%d bytes)", vC05Hex(rb), vC05ToSx(got), d.Size(), vC05ToSx(n), len(rb))}
+		}
+	}
 	return obs, nil
 }
 
@@ -96,6 +105,14 @@ func vC06RunBytes(b []byte) (obs vSx, fl *vC06Fail, tree *vC05Node) {
 		}
 		if a.Size() != len(b)-len(rest) {
 			return obs, &vC06Fail{"spec-to-lib", key, fmt.Sprintf("Size() = %d, the specification's value occupies %d bytes of %s", a.Size(), len(b)-len(rest), vC05Hex(b))}, tree
+		}
+		if d := vC05DirtyReceiver(rn.kind); d != nil {
+			if err := d.UnmarshalBinary(b); err != nil {
+				return obs, &vC06Fail{"spec-to-lib-receiver", key, fmt.Sprintf("a receiver already holding a value rejects (%v) %s", err, vC05Hex(b))}, tree
+			}
+			if gd := vC05Dump(d); !vC05Equal(gd, rn, false) || d.Size() != len(b)-len(rest) {
+				return obs, &vC06Fail{"spec-to-lib-receiver", key, fmt.Sprintf("a receiver already holding a value reads %s as %s with Size() %d, the specification reads %s (%d bytes)", vC05Hex(b), vC05ToSx(gd), d.Size(), vC05ToSx(rn), len(b)-len(rest))}, tree
+			}
 		}
 	case !rok && code == 0:
 		return obs, &vC06Fail{"lib-accepts-nonspec", key, fmt.Sprintf("library accepts %s as %s, which is not a specification-conformant encoding", vC05Hex(b), vC05ToSx(got))}, tree
